@@ -504,3 +504,486 @@ Proof.
     specialize (IH Hin'). assert (m + 1 + Z.of_nat K + 1 <= m'); [|lia].
     apply IH. intros i Hi. apply Hc. lia.
 Qed.
+
+(* ---- substring test *)
+
+Lemma append_nil_r : forall s, (s ++ "")%string = s.
+Proof. induction s as [|c r IH]; simpl; [reflexivity | rewrite IH; reflexivity]. Qed.
+
+Lemma append_assoc : forall a b c, ((a ++ b) ++ c)%string = (a ++ (b ++ c))%string.
+Proof. induction a as [|x r IH]; intros; simpl; [reflexivity | rewrite IH; reflexivity]. Qed.
+
+Lemma prefix_spec : forall s f, prefix s f = true <-> exists v, f = (s ++ v)%string.
+Proof.
+  induction s as [|a s IH]; intros f.
+  - destruct f; simpl; split; eauto.
+  - destruct f as [|b f]; simpl.
+    + split; [discriminate | intros [v Hv]; discriminate].
+    + destruct (ascii_dec a b) as [->|Hab].
+      * rewrite IH. split; intros [v Hv]; exists v; [rewrite Hv; reflexivity | inversion Hv; reflexivity].
+      * split; [discriminate|]. intros [v Hv]. inversion Hv. congruence.
+Qed.
+
+Lemma py_str_contains_unfold : forall s f,
+  py_str_contains s f = (prefix s f || match f with EmptyString => false | String _ r => py_str_contains s r end)%bool.
+Proof. intros s [|c r]; reflexivity. Qed.
+
+(* s in f  <->  f = u s v *)
+Lemma py_str_contains_spec : forall s f,
+  py_str_contains s f = true <-> exists u v, f = (u ++ s ++ v)%string.
+Proof.
+  intros s f. induction f as [|c r IH]; rewrite py_str_contains_unfold.
+  - rewrite orb_false_r, prefix_spec. split.
+    + intros [v Hv]. exists EmptyString, v. exact Hv.
+    + intros [u [v H]]. destruct u; [exists v; exact H | discriminate].
+  - rewrite orb_true_iff, prefix_spec, IH. split.
+    + intros [[v Hv] | [u [v Hr]]].
+      * exists EmptyString, v. exact Hv.
+      * exists (String c u), v. simpl. rewrite Hr. reflexivity.
+    + intros [u [v H]]. destruct u as [|c' u'].
+      * left. exists v. exact H.
+      * right. simpl in H. inversion H. exists u', v. reflexivity.
+Qed.
+
+(* ---- strings as lists of characters *)
+
+Notation la := list_ascii_of_string.
+Local Open Scope list_scope.
+
+Lemma la_app : forall s1 s2, la (s1 ++ s2) = (la s1 ++ la s2)%list.
+Proof. induction s1 as [|c r IH]; intros; simpl; [reflexivity | rewrite IH; reflexivity]. Qed.
+
+Lemma la_length : forall s, length (la s) = String.length s.
+Proof. induction s as [|c r IH]; simpl; [reflexivity | rewrite IH; reflexivity]. Qed.
+
+Lemma la_inj : forall s s', la s = la s' -> s = s'.
+Proof.
+  intros s s' H. rewrite <- (string_of_list_ascii_of_string s), <- (string_of_list_ascii_of_string s'), H.
+  reflexivity.
+Qed.
+
+Lemma str_all_Forall : forall p s, str_all p s = true -> Forall (fun c => p c = true) (la s).
+Proof.
+  induction s as [|c r IH]; intros H; simpl in *; [constructor|].
+  apply andb_true_iff in H. destruct H. constructor; auto.
+Qed.
+
+(* ---- '%i' % z *)
+
+Lemma uint_str_digits : forall d, str_all is_ascii_digit (NilEmpty.string_of_uint d) = true.
+Proof. induction d; simpl; auto. Qed.
+
+Lemma uint_str_nonempty : forall d, d <> Decimal.Nil -> NilEmpty.string_of_uint d <> EmptyString.
+Proof. destruct d; simpl; intros H; congruence. Qed.
+
+Lemma to_int_nonneg : forall z, 0 <= z -> exists d, Z.to_int z = Decimal.Pos d /\ d <> Decimal.Nil.
+Proof.
+  intros [|p|p] H; simpl.
+  - eexists; split; [reflexivity | discriminate].
+  - eexists; split; [reflexivity | apply Unsigned.to_uint_nonnil].
+  - lia.
+Qed.
+
+Lemma py_fmt_i_nonneg : forall z, 0 <= z ->
+  str_all is_ascii_digit (py_fmt_i z) = true /\ py_fmt_i z <> EmptyString.
+Proof.
+  intros z Hz. destruct (to_int_nonneg z Hz) as [d [Hd Hn]]. unfold py_fmt_i. rewrite Hd.
+  unfold NilZero.string_of_int, NilZero.string_of_uint.
+  destruct d; try congruence; (split; [apply uint_str_digits | apply uint_str_nonempty; exact Hn]).
+Qed.
+
+Lemma py_fmt_i_inj : forall z z', py_fmt_i z = py_fmt_i z' -> z = z'.
+Proof.
+  intros z z' H. unfold py_fmt_i in H.
+  assert (Hz : forall x, Z.to_int x <> Decimal.Pos Decimal.Nil /\ Z.to_int x <> Decimal.Neg Decimal.Nil).
+  { intros [|p|p]; simpl; split; try discriminate;
+      intros E; inversion E as [E']; exact (Unsigned.to_uint_nonnil p E'). }
+  assert (E : Some (Z.to_int z) = Some (Z.to_int z')).
+  { rewrite <- (NilZero.isi (Z.to_int z)), <- (NilZero.isi (Z.to_int z')); try apply Hz. rewrite H. reflexivity. }
+  inversion E as [E']. rewrite <- (DecimalZ.of_to z), <- (DecimalZ.of_to z'), E'. reflexivity.
+Qed.
+
+Definition dig (j : nat) : list ascii := la (py_fmt_i (Z.of_nat j)).
+
+Lemma la_aname : forall j, la (aname j) = "a"%char :: dig j.
+Proof. intros j. unfold aname, py_fmt_pct_i, dig. rewrite append_nil_r. reflexivity. Qed.
+
+Lemma dig_not_a : forall j, ~ In "a"%char (dig j).
+Proof.
+  intros j H. destruct (py_fmt_i_nonneg (Z.of_nat j)) as [Hd _]; [lia|].
+  apply str_all_Forall in Hd. rewrite Forall_forall in Hd. specialize (Hd _ H). discriminate.
+Qed.
+
+Lemma dig_nonempty : forall j, (1 <= length (dig j))%nat.
+Proof.
+  intros j. destruct (py_fmt_i_nonneg (Z.of_nat j)) as [_ Hn]; [lia|].
+  unfold dig. destruct (py_fmt_i (Z.of_nat j)); [congruence | simpl; lia].
+Qed.
+
+Lemma dig_inj : forall i j, dig i = dig j -> i = j.
+Proof. intros i j H. apply la_inj, py_fmt_i_inj in H. lia. Qed.
+
+(* parameter names do not look like integers *)
+Lemma aname_not_numeric : forall j, numeric_like (aname j) = false.
+Proof.
+  intros j. unfold aname, py_fmt_pct_i. reflexivity.
+Qed.
+
+(* ---- how many of a0, a1, ... fit into one string *)
+
+Definition occ (A f : list ascii) (e : nat) : Prop := exists u v, f = u ++ A ++ v /\ length v = e.
+
+Lemma contains_occ : forall j f, py_str_contains (aname j) f = true -> exists e, occ ("a"%char :: dig j) (la f) e.
+Proof.
+  intros j f H. apply py_str_contains_spec in H. destruct H as [u [v H]].
+  exists (length (la v)), (la u), (la v). split; [|reflexivity].
+  rewrite H, !la_app, la_aname. reflexivity.
+Qed.
+
+Lemma occ_same_end : forall i j f e,
+  occ ("a"%char :: dig i) f e -> occ ("a"%char :: dig j) f e -> i = j.
+Proof.
+  intros i j f e [u [v [H1 L1]]] [u' [v' [H2 L2]]].
+  assert (Hs : (u ++ "a"%char :: dig i) ++ v = (u' ++ "a"%char :: dig j) ++ v').
+  { rewrite <- !app_assoc. rewrite <- H1. exact H2. }
+  assert (Hx : u ++ "a"%char :: dig i = u' ++ "a"%char :: dig j).
+  { apply app_eq_app in Hs. destruct Hs as [l [[Ha Hb] | [Ha Hb]]].
+    - assert (l = []) by (destruct l; [reflexivity | rewrite Hb, app_length in L2; simpl in L2; lia]).
+      subst l. rewrite app_nil_r in Ha. exact Ha.
+    - assert (l = []) by (destruct l; [reflexivity | rewrite Hb, app_length in L1; simpl in L1; lia]).
+      subst l. rewrite app_nil_r in Ha. symmetry. exact Ha. }
+  apply app_eq_app in Hx. destruct Hx as [l [[Ha Hb] | [Ha Hb]]].
+  - destruct l as [|c l].
+    + inversion Hb as [Hd]. apply dig_inj. symmetry. exact Hd.
+    + inversion Hb as [[Hc Hd]]. exfalso. apply (dig_not_a j). rewrite Hd. apply in_or_app. right. left. reflexivity.
+  - destruct l as [|c l].
+    + inversion Hb as [Hd]. apply dig_inj. exact Hd.
+    + inversion Hb as [[Hc Hd]]. exfalso. apply (dig_not_a i). rewrite Hd. apply in_or_app. right. left. reflexivity.
+Qed.
+
+Lemma occ_bound : forall j f e, occ ("a"%char :: dig j) f e -> (e + 2 <= length f)%nat.
+Proof.
+  intros j f e [u [v [H L]]]. rewrite H, !app_length. cbn [length]. pose proof (dig_nonempty j). lia.
+Qed.
+
+Lemma distinct_ends : forall n f,
+  (forall i, (i < n)%nat -> exists e, occ ("a"%char :: dig i) f e) ->
+  exists l, length l = n /\ NoDup l /\ forall e, In e l -> exists i, (i < n)%nat /\ occ ("a"%char :: dig i) f e.
+Proof.
+  induction n as [|n IH]; intros f H.
+  - exists []. split; [reflexivity|]. split; [constructor | intros e []].
+  - destruct (IH f) as [l [Hl [Hnd Hocc]]]; [intros i Hi; apply H; lia|].
+    destruct (H n) as [e He]; [lia|].
+    exists (e :: l). split; [simpl; lia|]. split.
+    + constructor; [|exact Hnd]. intros Hin. destruct (Hocc e Hin) as [i [Hi Hoi]].
+      pose proof (occ_same_end _ _ _ _ Hoi He). lia.
+    + intros e' [<-|Hin]; [exists n; split; [lia | exact He]|].
+      destruct (Hocc e' Hin) as [i [Hi Hoi]]. exists i. split; [lia | exact Hoi].
+Qed.
+
+(* a string that contains all of a0 .. a(n-1) has at least n+1 characters *)
+Lemma names_bound : forall n f,
+  (forall i, (i < n)%nat -> py_str_contains (aname i) f = true) ->
+  n = O \/ (n + 1 <= String.length f)%nat.
+Proof.
+  intros n f H. destruct n as [|n]; [left; reflexivity | right].
+  destruct (distinct_ends (S n) (la f)) as [l [Hl [Hnd Hocc]]].
+  { intros i Hi. apply contains_occ, H, Hi. }
+  assert (Hincl : incl l (seq 0 (String.length f - 1))).
+  { intros e He. destruct (Hocc e He) as [i [_ Ho]]. apply occ_bound in Ho. rewrite la_length in Ho.
+    apply in_seq. lia. }
+  pose proof (NoDup_incl_length Hnd Hincl) as Hle. rewrite seq_length in Hle. lia.
+Qed.
+
+(* ---- the loop terminates within the fuel the translator gives it *)
+
+Lemma max_strlen_ge : forall F f, In f F -> (String.length f <= max_strlen F)%nat.
+Proof.
+  induction F as [|g r IH]; intros f Hin; [destruct Hin|].
+  destruct Hin as [<-|H]; simpl; [lia|]. specialize (IH f H). lia.
+Qed.
+
+Lemma gmp_total_aux : forall fuel m w (L : nat),
+  0 <= m ->
+  (forall f i, In f w -> 0 <= i <= m -> py_str_contains (aZ i) f = true) ->
+  (forall f, In f w -> (String.length f <= L)%nat) ->
+  w <> [] ->
+  Z.of_nat L - m <= Z.of_nat fuel ->
+  exists r, while_fuel fuel gmp_cond gmp_body (m, w) = Some r.
+Proof.
+  induction fuel as [|fuel IH]; intros m w L Hm Hinv Hlen Hne Hfuel.
+  - exfalso. destruct w as [|f r]; [congruence|].
+    destruct (names_bound (S (Z.to_nat m)) f) as [H|H]; [|discriminate|].
+    + intros i Hi. unfold aname. apply (Hinv f (Z.of_nat i)); [left; reflexivity | lia].
+    + specialize (Hlen f (or_introl eq_refl)). lia.
+  - rewrite gmp_step. destruct w as [|f r]; [congruence|].
+    assert (Hb : m + 2 <= Z.of_nat L).
+    { destruct (names_bound (S (Z.to_nat m)) f) as [H|H]; [|discriminate|].
+      - intros i Hi. unfold aname. apply (Hinv f (Z.of_nat i)); [left; reflexivity | lia].
+      - specialize (Hlen f (or_introl eq_refl)). lia. }
+    set (w1 := filter (fun f0 => py_str_contains (aZ (m + 1)) f0) (f :: r)).
+    destruct w1 as [|g w1'] eqn:Ew.
+    + destruct fuel as [|fuel']; [lia|]. rewrite gmp_step. eauto.
+    + rewrite <- Ew. apply (IH (m + 1) w1 L); try lia.
+      * intros f0 i Hf0 Hi. unfold w1 in Hf0. apply filter_In in Hf0. destruct Hf0 as [Hf0 Hc].
+        destruct (Z.eq_dec i (m + 1)) as [->|Hneq]; [exact Hc|]. apply Hinv; [exact Hf0 | lia].
+      * intros f0 Hf0. unfold w1 in Hf0. apply filter_In in Hf0. apply Hlen. tauto.
+      * rewrite Ew. discriminate.
+Qed.
+
+Lemma gmp_loop_total : forall F, exists r, while_fuel (S (S (max_strlen F))) gmp_cond gmp_body (-1, F) = Some r.
+Proof.
+  intros F. rewrite gmp_step. destruct F as [|f r]; [eauto|].
+  replace (-1 + 1) with 0 by lia.
+  set (w1 := filter (fun f0 => py_str_contains (aZ 0) f0) (f :: r)).
+  destruct w1 as [|g w1'] eqn:Ew.
+  - rewrite gmp_step. eauto.
+  - rewrite <- Ew. apply (gmp_total_aux _ 0 w1 (max_strlen (f :: r))); try lia.
+    + intros f0 i Hf0 Hi. assert (i = 0) by lia. subst i.
+      unfold w1 in Hf0. apply filter_In in Hf0. tauto.
+    + intros f0 Hf0. unfold w1 in Hf0. apply filter_In in Hf0. apply max_strlen_ge. tauto.
+    + rewrite Ew. discriminate.
+Qed.
+
+(* get_max_param always returns, and what it returns is >= 0 *)
+Theorem get_max_param_total : forall F, exists m, get_max_param F = Some m /\ 0 <= m.
+Proof.
+  intros F. rewrite get_max_param_unfold. destruct (gmp_loop_total F) as [[m w] H]. rewrite H.
+  exists (if m <? 0 then 0 else m). split; [reflexivity|]. destruct (Z.ltb_spec m 0); lia.
+Qed.
+
+(* T6: if some string of the list contains a0 .. a(K-1), the returned bound is >= K:
+   param_list = [a0 .. a(bound-1)] then covers every parameter with index < K.
+   (The scan is a substring test: 'a1' is also found inside 'a10'; that can only
+   make the bound larger.) *)
+Theorem max_param_covers : forall F f (K : nat),
+  In f F -> (forall j, (j < K)%nat -> py_str_contains (aname j) f = true) ->
+  exists m, get_max_param F = Some m /\ Z.of_nat K <= m.
+Proof.
+  intros F f K Hin Hc. rewrite get_max_param_unfold. destruct (gmp_loop_total F) as [[m w] H]. rewrite H.
+  exists (if m <? 0 then 0 else m). split; [reflexivity|].
+  assert (Hk : -1 + Z.of_nat K + 1 <= m).
+  { apply (gmp_cover _ _ _ _ _ f K H Hin). intros i Hi.
+    replace i with (Z.of_nat (Z.to_nat i)) by lia. apply (Hc (Z.to_nat i)). lia. }
+  destruct (Z.ltb_spec m 0); lia.
+Qed.
+
+(* ================================================================ pipeline and single-tree API *)
+
+(* some string of F mentions all of a0 .. a(K-1) *)
+Definition covers (F : list string) (K : nat) : Prop :=
+  exists f, In f F /\ forall j, (j < K)%nat -> py_str_contains (aname j) f = true.
+
+Lemma covered_param_list : forall tree F (K : nat),
+  (forall j, In (aname j) tree -> (j < K)%nat) -> covers F K ->
+  exists m, get_max_param F = Some m /\
+            aifeyn_complexity tree (gen_param_list m) = aifeyn_spec tree (anames K).
+Proof.
+  intros tree F K Ht [f [Hf Hc]]. destruct (max_param_covers F f K Hf Hc) as [m [Hm Hk]].
+  exists m. split; [exact Hm|]. rewrite gen_param_list_anames, <- aifeyn_structure.
+  apply aifeyn_cover_same. intros j Hj. specialize (Ht j Hj). lia.
+Qed.
+
+(* T7: generate_equations calls aifeyn_complexity(tree, param_list) with param_list built
+   from get_max_param(all_fun[i]); tree_to_aifeyn / single_function call the same routine
+   with param_list built from get_max_param([fstr]), fstr printed from the tree itself.
+   If the tree uses parameters a0..a(K-1) (all of them, as ESR numbers them), fstr mentions
+   every label of the tree, and the shape's strings cover a0..a(K-1), both calls return
+   the same structure, namely the specification with parameters {a0..a(K-1)}. *)
+Theorem single_tree_api_same : forall tree (K : nat) Fpipe fstr,
+  (forall j, In (aname j) tree -> (j < K)%nat) ->
+  (forall j, (j < K)%nat -> In (aname j) tree) ->
+  (forall l, In l tree -> py_str_contains l fstr = true) ->
+  covers Fpipe K ->
+  exists mp ma, get_max_param Fpipe = Some mp /\ get_max_param [fstr] = Some ma /\
+    aifeyn_complexity tree (gen_param_list ma) = aifeyn_complexity tree (gen_param_list mp) /\
+    aifeyn_complexity tree (gen_param_list mp) = aifeyn_spec tree (anames K).
+Proof.
+  intros tree K Fpipe fstr Hlt Hall Hstr Hpipe.
+  destruct (covered_param_list tree Fpipe K Hlt Hpipe) as [mp [Hmp Hp]].
+  assert (Hapi : covers [fstr] K).
+  { exists fstr. split; [left; reflexivity|]. intros j Hj. apply Hstr, Hall, Hj. }
+  destruct (covered_param_list tree [fstr] K Hlt Hapi) as [ma [Hma Ha]].
+  exists mp, ma. repeat split; try assumption. rewrite Ha, Hp. reflexivity.
+Qed.
+
+(* ================================================================ alignment of trees_n and aifeyn_n *)
+
+Definition run_gen : fsys -> list shape_out -> option fsys :=
+  run_generate get_max_param gen_param_list aifeyn_complexity gen_clear gen_plan gen_cats.
+
+(* the param_list used for all trees of one shape *)
+Definition pl_of (sh : shape_out) : list string :=
+  match get_max_param (so_fun sh) with Some m => gen_param_list m | None => [] end.
+
+(* (tree, shape it came from): originals of all shapes, then rewritten trees of all shapes *)
+Definition rows (shapes : list shape_out) : list (list string * shape_out) :=
+  flat_map (fun sh => map (fun t => (t, sh)) (so_all sh)) shapes ++
+  flat_map (fun sh => map (fun t => (t, sh)) (so_extra sh)) shapes.
+
+Lemma fs_read_write : forall fs n c n',
+  fs_read (fs_write fs n c) n' = if String.eqb n n' then c else fs_read fs n'.
+Proof. reflexivity. Qed.
+
+Definition vals_all (sh : shape_out) : list line :=
+  map (fun t => LVal (aifeyn_complexity t (pl_of sh))) (so_all sh).
+Definition vals_extra (sh : shape_out) : list line :=
+  map (fun t => LVal (aifeyn_complexity t (pl_of sh))) (so_extra sh).
+
+Lemma plan_step : forall pl sh fs,
+  let fs1 := fold_left (do_wstep aifeyn_complexity pl sh) gen_plan fs in
+  fs_read fs1 "orig_trees" = fs_read fs "orig_trees" ++ map LTree (so_all sh) /\
+  fs_read fs1 "extra_trees" = fs_read fs "extra_trees" ++ map LTree (so_extra sh) /\
+  fs_read fs1 "orig_aifeyn" = fs_read fs "orig_aifeyn" ++ map (fun t => LVal (aifeyn_complexity t pl)) (so_all sh) /\
+  fs_read fs1 "extra_aifeyn" = fs_read fs "extra_aifeyn" ++ map (fun t => LVal (aifeyn_complexity t pl)) (so_extra sh).
+Proof.
+  intros pl sh fs. unfold gen_plan. cbn [fold_left]. unfold do_wstep, fs_append.
+  cbn [w_file w_src w_pay pick]. rewrite !fs_read_write. simpl (String.eqb _ _).
+  repeat split; reflexivity.
+Qed.
+
+Lemma loop_inv : forall shapes fs,
+  exists fs', fold_left (do_shape get_max_param gen_param_list aifeyn_complexity gen_plan) shapes (Some fs) = Some fs' /\
+    fs_read fs' "orig_trees" = fs_read fs "orig_trees" ++ map LTree (flat_map so_all shapes) /\
+    fs_read fs' "extra_trees" = fs_read fs "extra_trees" ++ map LTree (flat_map so_extra shapes) /\
+    fs_read fs' "orig_aifeyn" = fs_read fs "orig_aifeyn" ++ flat_map vals_all shapes /\
+    fs_read fs' "extra_aifeyn" = fs_read fs "extra_aifeyn" ++ flat_map vals_extra shapes.
+Proof.
+  induction shapes as [|sh r IH]; intros fs.
+  - exists fs. cbn [fold_left flat_map map]. rewrite !app_nil_r. repeat split; reflexivity.
+  - cbn [fold_left]. unfold do_shape at 2. cbn [bind].
+    destruct (get_max_param_total (so_fun sh)) as [m [Hm _]]. rewrite Hm. cbn [bind].
+    destruct (plan_step (gen_param_list m) sh fs) as [P1 [P2 [P3 P4]]].
+    destruct (IH (fold_left (do_wstep aifeyn_complexity (gen_param_list m) sh) gen_plan fs))
+      as [fs' [Hf [I1 [I2 [I3 I4]]]]].
+    exists fs'. split; [exact Hf|].
+    rewrite I1, I2, I3, I4, P1, P2, P3, P4. cbn [flat_map]. rewrite !map_app, <- !app_assoc.
+    unfold vals_all at 2, vals_extra at 2, pl_of. rewrite Hm. repeat split; reflexivity.
+Qed.
+
+Lemma rows_fst : forall (sel : shape_out -> list (list string)) shapes,
+  map LTree (flat_map sel shapes)
+  = map (fun r : list string * shape_out => LTree (fst r)) (flat_map (fun sh => map (fun t => (t, sh)) (sel sh)) shapes).
+Proof.
+  intros sel. induction shapes as [|sh r IH]; [reflexivity|].
+  cbn [flat_map]. rewrite !map_app, IH, map_map. reflexivity.
+Qed.
+
+Lemma rows_val : forall (sel : shape_out -> list (list string)) shapes,
+  flat_map (fun sh => map (fun t => LVal (aifeyn_complexity t (pl_of sh))) (sel sh)) shapes
+  = map (fun r : list string * shape_out => LVal (aifeyn_complexity (fst r) (pl_of (snd r))))
+        (flat_map (fun sh => map (fun t => (t, sh)) (sel sh)) shapes).
+Proof.
+  intros sel. induction shapes as [|sh r IH]; [reflexivity|].
+  cbn [flat_map]. rewrite !map_app, IH, map_map. reflexivity.
+Qed.
+
+(* T8: whatever the four part files and the two final files contained before, after
+   generate_equations  trees_n = [tree of row i]_i  and  aifeyn_n = [code length of the
+   tree of row i, under its shape's param_list]_i  for one and the same list of rows
+   (originals of every shape in order, then rewritten trees of every shape in order). *)
+Theorem alignment : forall fs0 shapes,
+  exists fs, run_gen fs0 shapes = Some fs /\
+    fs_read fs "trees" = map (fun r => LTree (fst r)) (rows shapes) /\
+    fs_read fs "aifeyn" = map (fun r => LVal (aifeyn_complexity (fst r) (pl_of (snd r)))) (rows shapes).
+Proof.
+  intros fs0 shapes. unfold run_gen, run_generate.
+  set (fs1 := fold_left (fun fs n => fs_write fs n []) gen_clear fs0).
+  destruct (loop_inv shapes fs1) as [fs2 [Hf [I1 [I2 [I3 I4]]]]]. rewrite Hf. cbn [bind].
+  eexists. split; [reflexivity|].
+  assert (C1 : fs_read fs1 "orig_trees" = []) by reflexivity.
+  assert (C2 : fs_read fs1 "extra_trees" = []) by reflexivity.
+  assert (C3 : fs_read fs1 "orig_aifeyn" = []) by reflexivity.
+  assert (C4 : fs_read fs1 "extra_aifeyn" = []) by reflexivity.
+  rewrite C1 in I1. rewrite C2 in I2. rewrite C3 in I3. rewrite C4 in I4. cbn [app] in *.
+  unfold gen_cats. cbn [fold_left]. unfold do_cat. cbn [fst snd map concat].
+  repeat (rewrite !fs_read_write; simpl (String.eqb _ _)).
+  rewrite I1, I2, I3, I4, !app_nil_r. unfold rows. rewrite !map_app.
+  unfold vals_all, vals_extra. rewrite (rows_val so_all), (rows_val so_extra).
+  rewrite (rows_fst so_all), (rows_fst so_extra). split; reflexivity.
+Qed.
+
+Lemma rows_In : forall shapes r, In r (rows shapes) ->
+  In (snd r) shapes /\ (In (fst r) (so_all (snd r)) \/ In (fst r) (so_extra (snd r))).
+Proof.
+  intros shapes [t sh] H. unfold rows in H. apply in_app_or in H. cbn [fst snd].
+  destruct H as [H|H]; apply in_flat_map in H; destruct H as [sh' [Hs Hm]];
+    apply in_map_iff in Hm; destruct Hm as [t' [E Ht]]; inversion E; subst; auto.
+Qed.
+
+(* line i of aifeyn_n is the code length of the tree on line i of trees_n *)
+Theorem alignment_lines : forall fs0 shapes fs i t,
+  run_gen fs0 shapes = Some fs ->
+  length (fs_read fs "trees") = length (fs_read fs "aifeyn") /\
+  (nth_error (fs_read fs "trees") i = Some (LTree t) ->
+   exists sh, In sh shapes /\ (In t (so_all sh) \/ In t (so_extra sh)) /\
+     nth_error (fs_read fs "aifeyn") i = Some (LVal (aifeyn_complexity t (pl_of sh)))).
+Proof.
+  intros fs0 shapes fs i t H. destruct (alignment fs0 shapes) as [fs' [H' [A1 A2]]].
+  rewrite H in H'. inversion H'. subst fs'. rewrite A1, A2. split; [rewrite !map_length; reflexivity|].
+  rewrite !nth_error_map. destruct (nth_error (rows shapes) i) as [r|] eqn:E; cbn [option_map]; [|discriminate].
+  intros Ht. inversion Ht. subst t. exists (snd r).
+  apply nth_error_In in E. destruct (rows_In _ _ E) as [R1 R2]. auto.
+Qed.
+
+(* a shape whose strings cover the parameters of all its trees *)
+Definition shape_covered (sh : shape_out) (K : nat) : Prop :=
+  covers (so_fun sh) K /\
+  forall t, In t (so_all sh) \/ In t (so_extra sh) -> forall j, In (aname j) t -> (j < K)%nat.
+
+(* ... then the value on the line is the specification with parameters {a0..a(K-1)} *)
+Theorem line_value : forall sh K t, shape_covered sh K ->
+  In t (so_all sh) \/ In t (so_extra sh) ->
+  aifeyn_complexity t (pl_of sh) = aifeyn_spec t (anames K).
+Proof.
+  intros sh K t [Hc Ht] Hin. destruct (covered_param_list t (so_fun sh) K (Ht t Hin) Hc) as [m [Hm Hv]].
+  unfold pl_of. rewrite Hm. exact Hv.
+Qed.
+
+(* the contiguity hypothesis of single_tree_api_same is needed: with parameters a1, a2
+   (no a0) the single-tree API's scan stops at a0, param_list is empty, and a1, a2 are
+   counted as two further operators *)
+Lemma api_gap_witness :
+  let tree := ["+"; "a1"; "a2"]%string in
+  get_max_param ["(a1)+(a2)"%string] = Some 0 /\
+  aifeyn_complexity tree (gen_param_list 0) = Some (3, 3, []) /\
+  aifeyn_spec tree (anames 3) = Some (3, 2, []).
+Proof. vm_compute. repeat split; reflexivity. Qed.
+
+Lemma param_names_not_numeric : forall m l, In l (gen_param_list m) -> numeric_like l = false.
+Proof.
+  intros m l H. rewrite gen_param_list_anames in H. apply In_anames in H.
+  destruct H as [j [_ ->]]. apply aname_not_numeric.
+Qed.
+
+Lemma aname_inj : forall i j, aname i = aname j -> i = j.
+Proof.
+  intros i j H. apply (f_equal list_ascii_of_string) in H. rewrite !la_aname in H.
+  inversion H as [Hd]. apply dig_inj. exact Hd.
+Qed.
+
+Lemma aname_first : forall j, exists r, aname j = String "a" r.
+Proof. intros j. unfold aname, py_fmt_pct_i. simpl. eauto. Qed.
+
+(* non-vacuity of shape_covered / covers (used as an Example in Props/C08.v) *)
+Lemma shape_covered_example :
+  shape_covered {| so_fun := ["(x)+(a0)"; "(a0)+(a1)"]%string;
+                   so_all := [["+"; "x"; "a0"]; ["+"; "a0"; "a1"]]%string;
+                   so_extra := [["a1"]]%string |} 2.
+Proof.
+  split.
+  - exists "(a0)+(a1)"%string. split; [right; left; reflexivity|].
+    intros j Hj. destruct j as [|[|j]]; [reflexivity | reflexivity | lia].
+  - assert (Hop : forall j l r, l = aname j -> l = String "+" r \/ l = String "x" r -> False).
+    { intros j l r E [H|H]; destruct (aname_first j) as [r' Hr]; rewrite H, Hr in E; discriminate. }
+    assert (H0 : forall j, "a0"%string = aname j -> (j < 2)%nat).
+    { intros j E. change "a0"%string with (aname 0) in E. apply aname_inj in E. lia. }
+    assert (H1 : forall j, "a1"%string = aname j -> (j < 2)%nat).
+    { intros j E. change "a1"%string with (aname 1) in E. apply aname_inj in E. lia. }
+    cbn [so_all so_extra]. intros t Ht j Hj.
+    destruct Ht as [[<-|[<-|[]]]|[<-|[]]]; cbn [In] in Hj;
+      repeat (destruct Hj as [Hj|Hj]);
+      try (exfalso; exact Hj);
+      try (apply H0; exact Hj); try (apply H1; exact Hj);
+      (exfalso; eapply Hop; [exact Hj | (left; reflexivity) || (right; reflexivity)]).
+Qed.
